@@ -85,14 +85,18 @@ TABLE = {
         ("filter-index-instead-of-take-silent", DF, "            yield colname, np.take(column, rows)", "            yield colname, column[rows].copy()", S, None),
     ],
     "C03": [
+        ("string-sentinel-for-missing (D33 reverted)", DF, "            if column._is_string_fixed() and column.is_na().any():\n                # No string constant sorts after all others:\n                # rank puts missing values last regardless.\n                column = column.rank(method=\"min\")\n", "            if column._is_string_fixed():\n                column = column.copy()\n                column[column.is_na()] = \"\\uffff\"\n", V, "ORD-key"),
+        ("max-codepoint-sentinel (still an ordinary string)", DF, "            if column._is_string_fixed() and column.is_na().any():\n                # No string constant sorts after all others:\n                # rank puts missing values last regardless.\n                column = column.rank(method=\"min\")\n", "            if column._is_string_fixed():\n                column = column.copy()\n                column[column.is_na()] = \"\\U0010ffff\"\n", V, "ORD-key"),
+        ("fixed-strings-with-missing-not-ranked", DF, "            if column._is_string_fixed() and column.is_na().any():\n                # No string constant sorts after all others:\n                # rank puts missing values last regardless.\n                column = column.rank(method=\"min\")\n", "", V, "ORD-key"),
+        ("fixed-strings-always-ranked", DF, "            if column._is_string_fixed() and column.is_na().any():\n", "            if column._is_string_fixed():\n", S, None),
         ("negate-integer-keys (D22 reverted)", DF, "            if column.is_integer() and not column.is_timedelta():\n", "            if False:\n", V, "ORD-key"),
         ("complement-timedelta-keys (timedelta64 is an integer to NumPy)", DF, "            if column.is_integer() and not column.is_timedelta():\n", "            if column.is_integer():\n", V, "ORD-key"),
         ("float-before-negation", DF, "            if dir > 0:\n                return column\n", "            if dir < 0 and column.is_integer():\n                column = column.as_float()\n            if dir > 0:\n                return column\n", V, "ORD-key"),
         ("negation-spelled-differently (still float only)", DF, "            return -column\n", "            return column * -1\n", S, None),
         ("lexsort-keys-not-reversed", DF, "sort_key(*x) for x in reversed(colname_dir_pairs.items())))", "sort_key(*x) for x in colname_dir_pairs.items()))", V, "ORD-1"),
-        ("rank-ordinal", DF, "column = column.rank(method=\"min\")", "column = column.rank(method=\"ordinal\")", V, "ORD-1"),
+        ("rank-ordinal", DF, "            if not column.is_number():\n                column = column.rank(method=\"min\")", "            if not column.is_number():\n                column = column.rank(method=\"ordinal\")", V, "ORD-1"),
+        ("rank-ordinal-for-fixed-strings", DF, "                # rank puts missing values last regardless.\n                column = column.rank(method=\"min\")", "                # rank puts missing values last regardless.\n                column = column.rank(method=\"ordinal\")", V, "ORD-1"),
         ("dir-not-validated", DF, "            if dir not in [1, -1]:\n                raise ValueError(\"dir should be 1 or -1\")\n            column = self[colname]", "            column = self[colname]", V, "DIR"),
-        ("sentinel-through-alias", DF, "                column = column.copy()\n                column[column.is_na()]", "                column[column.is_na()]", V, "OWN-2"),
         ("per-column-permutation", DF, "            yield colname, column[indices].copy()", "            yield colname, column[np.lexsort((column,))].copy()", V, "IDX-1"),
         ("argsort-guard-dropped", VE, "        if (self.is_string() and self.length > 0 and\n            0 < (n :=", "        if (self.is_string() and\n            0 < (n :=", V, "GRD-empty"),
         ("drop-copy-after-advanced-index-silent", DF, "            yield colname, column[indices].copy()", "            yield colname, column[indices]", S, None),
@@ -132,6 +136,7 @@ TABLE = {
         ("take-instead-of-index-silent", DF, "            yield colname, column[keep].copy()", "            yield colname, np.take(column, keep)", S, None),
     ],
     "C07": [
+        ("sum-vector-form-bare-item (D34 reverted)", AG, "    return item(np.sum(x))", "    return np.sum(x).item()", V, "GRD-item"),
         ("nth-vector-form-bare-item", AG, "        return item(x[index])", "        return x[index].item()", V, "GRD-item"),
         ("max-vector-form-bare-item", AG, "    return item(np.amax(x)) if len(x) >= 1 else x.na_value", "    return np.amax(x).item() if len(x) >= 1 else x.na_value", V, "GRD-item"),
         ("vector-std-drops-ddof", AG, "    return np.std(x, ddof=ddof).item() if len(x) >= 2 else np.nan", "    return np.std(x).item() if len(x) >= 2 else np.nan", V, "SIB-7"),
@@ -147,15 +152,16 @@ TABLE = {
          "            f = select(f, data, x)(np.sum)\n            aggregate.default = 0\n            return f(data[x],\n                     data._group_,\n                     drop_na=(\n                         data[x].is_na().any()),", V, "SIB-7"),
     ],
     "C08": [
+        ("timedelta-readmitted-to-numba (D35 reverted)", AG, "        np.issubdtype(x.dtype, np.datetime64) or\n", "        np.issubdtype(x.dtype, np.datetime64) or\n        np.issubdtype(x.dtype, np.timedelta64) or\n", V, "UNIFY"),
         ("nth-python-kernel-exact-bounds-silent", AG, "        try:\n            yield xg[index]\n        except IndexError:\n            yield None",
          "        yield xg[index] if -len(xg) <= index < len(xg) else None", S, None),
         ("nth-python-kernel-abs-bounds", AG, "        try:\n            yield xg[index]\n        except IndexError:\n            yield None",
          "        yield xg[index] if abs(index) < len(xg) else None", V, "SIB-8"),
         ("nth-python-kernel-slice", AG, "        try:\n            yield xg[index]\n        except IndexError:\n            yield None",
          "        yield next(iter(xg[index:]), None)", V, "SIB-8"),
-        ("numba-na-test-without-timedelta (D24 reverted)", AG, "    if isinstance(x, (types.NPDatetime, types.NPTimedelta)):", "    if isinstance(x, types.NPDatetime):", V, "SIB-9"),
+        ("numba-na-test-without-timedelta (timedelta is no longer admitted: D35)", AG, "    if isinstance(x, (types.NPDatetime, types.NPTimedelta)):", "    if isinstance(x, types.NPDatetime):", S, None),
         ("third-optional-list-kernel", AG, "            out.append(function(xg) if len(xg) >= nrequired else default)", "            out.append(function(xg) if len(xg) >= nrequired else None)", V, "NJIT-optional"),
-        ("typed-default-for-max (one finding less, none new)", AG, "                     default=None,\n                     nrequired=1)\n\n        aggregate.group_aware = True\n        return aggregate\n    x = handle_na(x, drop_na)\n    return np.amax(x)", "                     default=np.nan,\n                     nrequired=1)\n\n        aggregate.group_aware = True\n        return aggregate\n    x = handle_na(x, drop_na)\n    return np.amax(x)", S, None),
+        ("typed-default-for-max (one finding less, none new)", AG, "                     default=None,\n                     nrequired=1)\n\n        aggregate.group_aware = True\n        return aggregate\n    x = handle_na(x, drop_na)\n    return item(np.amax(x))", "                     default=np.nan,\n                     nrequired=1)\n\n        aggregate.group_aware = True\n        return aggregate\n    x = handle_na(x, drop_na)\n    return item(np.amax(x))", S, None),
         ("pair-swapped", AG, "            f = (nth_apply, nth_apply_numba)", "            f = (nth_apply_numba, nth_apply)", V, "SIB-8"),
         ("scanner-differs", AG, "        if j < n and group[j] == group[i]: continue\n        xij = x[i:j]\n        if drop_na:\n            xij = xij[~is_na_numba(xij)]",
          "        if j < n and group[j] == group[i]: continue\n        xij = x[i:j+0]\n        if drop_na:\n            xij = xij[~is_na_numba(xij)]", V, "SIB-8"),
@@ -302,8 +308,8 @@ def _seed_overlays(pid, root):
     here = os.path.dirname(os.path.dirname(os.path.abspath(__file__)))
     for meta_path in sorted(glob.glob(os.path.join(here, "seeded", "*", "meta.json"))):
         meta = json.load(open(meta_path))
-        if pid not in meta.get("caught_by", []):
-            continue
+        if pid not in meta.get("caught_by", []) or meta.get("retired"):
+            continue        # retired: the edited statements were removed by a later repair of /repo (reason in meta.json)
         patch = os.path.join(os.path.dirname(meta_path), "patch.diff")
         tmp = tempfile.mkdtemp(prefix="sa-variant-")
         try:
